@@ -46,7 +46,8 @@ func genBody(rng *hx.Rng, maxSize int, id int) (msg string, wire string, kind st
 		hdr = []string{"Subject: no from " + strconv.Itoa(id), "To: x@example.com"}
 		kind = "no-from"
 	case 1:
-		hdr = []string{"this is not a header line"}
+		// the offending line ends up in error texts: command words in it must stay message content
+		hdr = []string{rng.Pick([]string{"this is not a header line", "QUIT", "I QUIT this list", "RSET everything", "DATA", "quit: lower case is a header", "NOOP QUIT RSET", "MAIL FROM:<evil@x>", "250 OK", "221 Bye"})}
 		kind = "garbage-header"
 	case 2:
 		hdr = []string{"From: s@example.org", "Subject: no recipients " + strconv.Itoa(id)}
